@@ -9,6 +9,7 @@ import PngVerif.Driver.C17
 import PngVerif.Driver.C12
 import PngVerif.Driver.Reader
 import PngVerif.Driver.C06DataPath
+import PngVerif.Driver.Lazy
 /-!
 `pngmodel`: line-protocol driver.  One case per input line, one canonical answer per output line,
 `bad-op` for anything that does not parse (never a default).  The functions called here are the
@@ -29,6 +30,7 @@ def answer (line : String) : String :=
   | "c12" :: args => c12 args
   | "rdr" :: args => rdr args
   | "c06dp" :: args => c06dp args
+  | "lazy" :: args => «lazy» args
   | _ => "bad-op"
 
 partial def loop (hin hout : IO.FS.Stream) : IO Unit := do
